@@ -185,8 +185,11 @@ func runC11(w *fw.Worker) {
 					pt.If{Conds: []pt.Expr{pt.Bin(">", pt.C("len", pt.V("errmsg")), pt.N(9))}, Blocks: [][]pt.Stmt{{
 						pt.Print(pt.Index{X: pt.V("errmsg"), I: pt.N(0)}, pt.Index{X: pt.V("errmsg"), I: pt.N(-2)}, pt.Index{X: pt.V("errmsg"), I: pt.N(-1)}, pt.Slice{X: pt.V("errmsg"), Lo: pt.N(-4)},
 							pt.Slice{X: pt.V("errmsg"), Lo: pt.N(3), Hi: pt.N(9)}),
-						pt.For{Var: "c", Range: []pt.Expr{pt.Slice{X: pt.V("errmsg"), Lo: pt.N(-3)}}, Body: []pt.Stmt{pt.Print(pt.S("c"), pt.V("c"))}}}},
-						Else: []pt.Stmt{pt.Print(pt.S("short"), pt.Slice{X: pt.V("errmsg")})}})
+						pt.For{Var: "c", Range: []pt.Expr{pt.Slice{X: pt.V("errmsg"), Lo: pt.N(-3)}}, Body: []pt.Stmt{pt.Print(pt.S("c"), pt.V("c"))}},
+						pt.InferDecl{Name: fmt.Sprint("all", step), X: pt.S("")},
+						pt.For{Var: "c", Range: []pt.Expr{pt.V("errmsg")}, Body: []pt.Stmt{pt.Assign{Target: pt.V(fmt.Sprint("all", step)), X: pt.Bin("+", pt.V(fmt.Sprint("all", step)), pt.Bin("+", pt.V("c"), pt.S("|")))}}},
+						pt.Print(pt.S("all"), pt.V(fmt.Sprint("all", step)))}},
+						Else: []pt.Stmt{pt.Print(pt.S("short"), pt.Slice{X: pt.V("errmsg")}), pt.For{Var: "c", Range: []pt.Expr{pt.V("errmsg")}, Body: []pt.Stmt{pt.Print(pt.S("c"), pt.V("c"))}}}})
 			}
 			do("errmsg-view", true, stmts...)
 		}
